@@ -139,6 +139,12 @@ pub struct Ep {
     pub adv_streams: [u64; 2],
     emitted_vals: BTreeSet<(u8, u64, u64)>,
     pub failed: Option<String>,
+    /// the peer parameters this endpoint's sending is judged against (the remembered ones during 0-RTT)
+    peer_params: Params,
+    /// a 0-RTT client before the handshake completed
+    pub in_zero_rtt: bool,
+    /// 0-RTT was rejected and the handshake has not completed yet: the application's openers wait
+    pub gate_openers: bool,
 }
 
 pub fn sid_key(sid: StreamId) -> u64 {
@@ -188,7 +194,16 @@ pub fn build(case: &Case) -> [Ep; 2] {
         let rel: Rel = ArcReliableFrameDeque::with_capacity_and_wakers(8, wakers.clone());
         let me = &case.params[side.idx()];
         let peer = &case.params[side.peer().idx()];
-        let (ds, flow, params) = if side == Side::Client {
+        let zr = case.zero_rtt.as_ref().filter(|_| side == Side::Client);
+        let (ds, flow, params) = if let Some(z) = zr {
+            // as PendingConnection::run builds a resuming client: remembered server parameters everywhere
+            let mut rp = ServerParameters::default();
+            set_params(&mut rp, &z.remembered);
+            let flow = FlowController::new(z.remembered.max_data, me.max_data, rel.clone(), wakers.clone());
+            let ds = DataStreams::new(Role::Client, &cp, &rp, strategy(me), rel.clone(), wakers.clone(), None);
+            let p = Parameters::new_client(cp.clone(), Some(rp), odcid);
+            (ds, flow, ArcParameters::from(p))
+        } else if side == Side::Client {
             let flow = FlowController::new(0, me.max_data, rel.clone(), wakers.clone());
             let ds = DataStreams::new(Role::Client, &cp, &ServerParameters::default(), strategy(me), rel.clone(), wakers.clone(), None);
             let mut p = Parameters::new_client(cp.clone(), None, odcid);
@@ -220,18 +235,64 @@ pub fn build(case: &Case) -> [Ep; 2] {
             ack_ord: 0,
             rcvd_pns: BTreeSet::new(),
             ack_pending: false,
-            lim_conn: peer.max_data,
+            lim_conn: zr.map(|z| z.remembered.max_data).unwrap_or(peer.max_data),
             lim_stream: HashMap::new(),
-            lim_streams: [peer.streams_bidi, peer.streams_uni],
+            lim_streams: zr.map(|z| [z.remembered.streams_bidi, z.remembered.streams_uni]).unwrap_or([peer.streams_bidi, peer.streams_uni]),
             max_off_sent: HashMap::new(),
             adv_conn: me.max_data,
             adv_stream: HashMap::new(),
             adv_streams: [me.streams_bidi, me.streams_uni],
             emitted_vals: BTreeSet::new(),
             failed: None,
+            peer_params: zr.map(|z| z.remembered.clone()).unwrap_or_else(|| peer.clone()),
+            in_zero_rtt: zr.is_some(),
+            gate_openers: zr.is_some_and(|z| !z.accepted),
         }
     };
     [mk(Side::Client), mk(Side::Server)]
+}
+
+/// The client's handshake completes (TlsHandshake finished -> `tls_fin_handler` in qconnection::builder): the server's
+/// real parameters arrive, 0-RTT is accepted or rejected.
+pub fn complete_handshake(ep: &mut Ep, case: &Case, out: &mut Outcome, step: u32) {
+    let Some(z) = case.zero_rtt.as_ref() else { return };
+    let real = case.params[1].clone();
+    let scid_s = ConnectionId::from_slice(&[2, 2, 2, 2, 2, 2, 2, 2]);
+    let odcid = ConnectionId::from_slice(&[9, 9, 9, 9, 9, 9, 9, 9]);
+    let mut sp = ServerParameters::default();
+    set_params(&mut sp, &real);
+    sp.set(ParameterId::InitialSourceConnectionId, scid_s).unwrap();
+    sp.set(ParameterId::OriginalDestinationConnectionId, odcid).unwrap();
+    let rejected = !z.accepted;
+    let res = simcore::panics::guarded(|| -> Result<(), QError> {
+        {
+            let mut g = ep.params.lock_guard()?;
+            g.recv_remote_params(sp.clone())?;
+            g.initial_scid_from_peer_need_equal(scid_s)?;
+        }
+        ep.ds.revise_params(rejected, &sp);
+        ep.flow.sender.revise_max_data(rejected, real.max_data);
+        Ok(())
+    });
+    match res {
+        Err(rec) => out.violate("no-panic", rec.site(), format!("handshake completion with 0-RTT {}: {} at {}", if rejected { "rejected" } else { "accepted" }, rec.message, rec.location), step as u64),
+        Ok(Err(e)) => out.violate("unexpected-error", format!("{:?}", e.kind()), format!("handshake completion with 0-RTT {} failed: {e}", if rejected { "rejected" } else { "accepted" }), step as u64),
+        Ok(Ok(())) => {}
+    }
+    out.stats.bump(if rejected { "fault.zero_rtt_rejected" } else { "probe.zero_rtt_accepted" });
+    ep.in_zero_rtt = false;
+    ep.gate_openers = false;
+    ep.peer_params = real.clone();
+    if rejected {
+        // the server never saw anything the client sent: the limits and the accounting start over
+        ep.lim_conn = real.max_data;
+        ep.lim_stream.clear();
+        ep.lim_streams = [real.streams_bidi, real.streams_uni];
+        ep.max_off_sent.clear();
+    } else {
+        ep.lim_conn = ep.lim_conn.max(real.max_data);
+        ep.lim_streams = [ep.lim_streams[0].max(real.streams_bidi), ep.lim_streams[1].max(real.streams_uni)];
+    }
 }
 
 impl Ep {
@@ -263,7 +324,9 @@ impl Ep {
         if pkt.buf.is_empty() {
             return None;
         }
-        let peer = &case.params[self.side.peer().idx()];
+        let _ = case;
+        let peer = self.peer_params.clone();
+        let peer = &peer;
         for r in &pkt.recs {
             match r {
                 Rec::Stream(f) => {
@@ -488,9 +551,27 @@ pub fn run(case: &Case, mode: Mode) -> Outcome {
     'outer: while step < case.max_steps {
         step += 1;
         let mut did = false;
+        // 0. a resumed connection: the client's handshake completes at the drawn step
+        if let Some(z) = &case.zero_rtt {
+            if eps[0].in_zero_rtt && step >= z.fin_at {
+                complete_handshake(&mut eps[0], case, &mut out, step);
+                if !z.accepted {
+                    faults += 1;
+                }
+                for a in asleep.iter_mut() {
+                    *a = false;
+                }
+                did = true;
+                if out.failed() {
+                    break 'outer;
+                }
+            }
+        }
         // 1. deliveries due now
         chan.sort_by_key(|f| (f.at, f.seq));
-        while let Some(pos) = chan.iter().position(|f| f.at <= step) {
+        // (1-RTT packets cannot be read by a client whose handshake has not completed: they wait)
+        let client_waits = eps[0].in_zero_rtt;
+        while let Some(pos) = chan.iter().position(|f| f.at <= step && !(client_waits && f.to == Side::Client)) {
             let f = chan.remove(pos);
             did = true;
             let ep = &mut eps[f.to.idx()];
@@ -587,7 +668,14 @@ pub fn run(case: &Case, mode: Mode) -> Outcome {
                         if let Some((pn, bytes, ord)) = ep.assemble(cap, &mut out, case, step) {
                             did = true;
                             th.add(3 << 56 | (side.idx() as u64) << 48 | pn << 16 | bytes.len() as u64);
-                            let fate = case.tape.data[side.idx()].get(&ord).copied().unwrap_or(Fate::Pass);
+                            let mut fate = case.tape.data[side.idx()].get(&ord).copied().unwrap_or(Fate::Pass);
+                            if ep.in_zero_rtt && case.zero_rtt.as_ref().is_some_and(|z| !z.accepted) {
+                                // the server is going to reject 0-RTT: it discards every 0-RTT packet
+                                out.stats.bump("fault.zero_rtt_packet_discarded_by_server");
+                                fate = Fate::Drop;
+                            } else if ep.in_zero_rtt {
+                                out.stats.bump("probe.zero_rtt_packet_sent");
+                            }
                             let mut put = |at: u32| {
                                 seq += 1;
                                 chan.push(Flying { at, seq, to: side.peer(), pn, payload: Some(bytes.clone()), acks: None });
@@ -737,6 +825,9 @@ fn step_actor(a: &mut Act, eps: &mut [Ep; 2], case: &Case, mode: Mode, out: &mut
     let seed = case.seed;
     match a {
         Act::Opener { side, todo, task } => {
+            if eps[side.idx()].gate_openers {
+                return false;
+            }
             let Some(&i) = todo.first() else { return false };
             let spec = case.streams[i].clone();
             let ep = &mut eps[side.idx()];
